@@ -178,6 +178,22 @@ def cases(rng, tier, shard, nshards):
             yield elbow(rng, la, lb, j1, j2)
         # a few strongly unbalanced elbows with steep neighbouring slopes (3-5 segments against hundreds): the faint
         # corner sits next to splits whose error differs from it by a few ulps of the long arm's sum of squares
+        # one extremely unbalanced monotone elbow per shard: the short arm (unit spacing) covers < 0.1 % of the x range,
+        # so the corner's margin in any smoothed / normalised difference curve is tiny (quadratic-time L-method skipped)
+        for _ in range(2):
+            a, b = int(rng.integers(1, 60)), int(rng.integers(1, 60))
+            if a == b:
+                b = a + 1
+            sgn = 1 if rng.random() < 0.5 else -1
+            short, long_ = 3, int(rng.integers(850, 1100))
+            e = elbow(rng, short, long_, sgn * a, sgn * b)
+            gaps = np.concatenate((np.ones(short + 1, dtype=np.int64), np.full(long_ - 1, 4, dtype=np.int64)))
+            m_, e_ = int(rng.integers(-500, 501)), int(rng.integers(0, 4))
+            pts, c = build(e['x0'], gaps, short, sgn * a, sgn * b, m_, e_)
+            if np.all(np.abs(pts) < 2.0 ** 17):
+                e.update({'points': pts, 'c': c, 'gaps': gaps, 'm': m_, 'e': e_, 'shifted': False, 'layout': 'C',
+                          'cls': e['cls'] + ':extremely-unbalanced', 'skip': ['elbow:lmethod']})
+                yield e
         for _ in range(3):
             a = int(rng.integers(48, 64))
             j1, j2 = (a + 1, a) if rng.random() < 0.5 else (-a - 1, -a)
@@ -246,6 +262,8 @@ def run_case(ctx, mods, case):
 
     observed = {}
     for key, name, thunk in configurations(mods, pts, monotone):
+        if case.get('skip') and any(key.startswith(p) for p in case['skip']):
+            continue
         ok, res = install.guarded(ctx, f'complete:{key[6:]}', thunk)
         if not ok:
             observed[name] = 'raised / loop bound'
